@@ -33,17 +33,34 @@ def obligations(tier):
                      bound='payload length %d (instances around the buffer size: fits / payload fits but footer does not / larger), read buffer 16 bytes (hook)' % plen))
         ob.unwind_text = [('jls_core_rd_chunk', r'while \(1\)', 4)]     # at most: TOO_BIG, grow, success (proved by the unwinding assertion)
         o.append(ob)
-    # O2/O3/O4 over the real raw layer + in-memory file (harness/c13_defs.c) returned no verdict; the same content over the chunk-store model of the raw layer:
-    hd = ['JLS_VERIF_SIGNAL_COUNT=3', 'JLS_VERIF_SOURCE_COUNT=3', 'JLS_VERIF_BUF_DEFAULT_SIZE=256', 'JLS_VERIF_BUF_STRING_SIZE=96', 'JLS_VERIF_FSR_BUFFER_U64=2', 'ST_N=20', 'ST_PMAX=144']
-    for nm, extra, desc in (('O2_O4_definitions_userdata_roundtrip', [], 'source + signal definitions (ids, verbatim numeric fields symbolic; strings fixed incl. absent and empty) and three user-data items '
-                             '(symbolic 12-bit tags and bytes) written by the real writer and parsed back by jls_core_scan_* / jls_core_sources / jls_core_signals / jls_core_user_data'),
-                            ('O3_identity_rules', ['MODE_IDENTITY=1'], 'duplicate source id, duplicate signal id, signal on an undefined source, data for an undefined signal: error code; no chunk is appended and no header or payload byte of the store changes')):
-        o.append(Obl(nm, 'c13_codec.c', units=['core.c', 'track.c', 'writer.c', 'buffer.c', 'reader.c'],
-                     defines=hd + extra, unwind=100, typed_calloc=True, flags=['--max-field-sensitivity-array-size', '4096'],
-                     unwind_text=[('jls_core_scan_initial', r'for \(int i = 0', 12), ('jls_core_scan_sources', r'while \(1\)', 4), ('jls_core_scan_signals', r'while \(1\)', 14),
-                                  ('jls_core_user_data', r'while \(pos\)', 6), ('jls_core_rd_chunk', r'while \(1\)', 3), ('jls_buf_rd_str', r'while \(self->cur != self->end\)', 8),
+    # O2/O3: one definition / user-data item per instance over the chunk-store model of the raw layer (harness/c13_unit.c).
+    # (The whole-file variants -- harness/c13_defs.c over the real raw layer, harness/c13_codec.c over the store model -- returned no verdict: props/_unclaimed_C13_defs.txt.)
+    hd = ['JLS_VERIF_SIGNAL_COUNT=3', 'JLS_VERIF_SOURCE_COUNT=3', 'JLS_VERIF_BUF_DEFAULT_SIZE=256', 'JLS_VERIF_BUF_STRING_SIZE=96', 'JLS_VERIF_FSR_BUFFER_U64=2', 'ST_N=8', 'ST_PMAX=144']
+    inst = []
+    for vsr, dt, dtn in ((0, 'JLS_DATATYPE_I16', 'i16'), (1, 'JLS_DATATYPE_F32', 'f32')) + (((0, 'JLS_DATATYPE_U1', 'u1'), (0, 'JLS_DATATYPE_F64', 'f64'), (1, 'JLS_DATATYPE_U24', 'u24')) if tier != 'quick' else ()):
+        inst.append(('O2_signal_def_roundtrip_%s_%s' % ('vsr' if vsr else 'fsr', dtn), ['MODE_SIGNAL=1', 'STYPE_VSR=%d' % vsr, 'DTYPE=%s' % dt],
+                     'jls_wr_signal_def -> jls_core_scan_signals (%s, %s): annotation and UTC decimate factors (and for VSR the rate) symbolic; every accepted definition reads back field by field as stored '
+                     '(each factor in its own field), ts tracks opened with their own factor, track heads attached' % ('VSR' if vsr else 'FSR', dtn),
+                     'one signal (id 1, source 2); block parameters and the FSR rate (1000000) concrete (C16 decides the normaliser); strings fixed (name 2 / units 1 characters)'))
+    inst += [
+            ('O2_source_def_roundtrip', ['MODE_SOURCE=1'], 'jls_wr_source_def -> jls_core_scan_sources: strings fixed incl. one absent and one empty string', 'one source; strings of 3/1/2 characters, one NULL, one empty')]
+    for c, cname, what in ((0, 'duplicate_source', 'a second definition of an existing source id'), (1, 'duplicate_signal', 'a second definition of an existing signal id'),
+                           (2, 'undefined_source', 'a signal naming a source id that was never defined (symbolic, in range or not)'),
+                           (3, 'data_for_undefined_signal', 'jls_wr_fsr on a signal id that was never defined (symbolic, in range or not)')):
+        inst.append(('O3_identity_%s' % cname, ['MODE_IDENTITY=1', 'IDENT_CASE=%d' % c], what + ': error code; no chunk appended and no header or payload byte of the store changes',
+                     'source 2 and FSR signal 1 defined before the rejected call'))
+    for kind, kname, size, slen in ((1, 'binary', 5, 0), (1, 'binary', 0, 0), (2, 'string', 0, 3), (2, 'string', 7, 3), (3, 'json', 2, 5)):
+        inst.append(('O2_user_data_%s_size%d_len%d' % (kname, size, slen), ['MODE_USERDATA=1', 'UD_KIND=%d' % kind, 'UD_SIZE=%d' % size, 'UD_STRLEN=%d' % slen],
+                     'jls_wr_user_data(%s, passed size %d%s) -> jls_core_user_data: symbolic 16-bit tag%s; delivered once with 12-bit tag, type, size%s and bytes'
+                     % (kname, size, '' if kind == 1 else ', text of %d characters' % slen, ' and bytes' if kind == 1 else '', '' if kind == 1 else ' strlen+1 whatever size was passed'),
+                     'one item after the initial chunk'))
+    for nm, modes, desc, bound in inst:
+        o.append(Obl(nm, 'c13_unit.c', units=['core.c', 'track.c', 'writer.c', 'buffer.c', 'reader.c'],
+                     defines=hd + modes, unwind=100, typed_calloc=True, flags=['--max-field-sensitivity-array-size', '2048'],
+                     unwind_text=[('jls_core_scan_sources', r'while \(1\)', 3), ('jls_core_scan_signals', r'while \(1\)', 9),
+                                  ('jls_core_user_data', r'while \(pos\)', 4), ('jls_core_rd_chunk', r'while \(1\)', 3), ('jls_buf_rd_str', r'while \(self->cur != self->end\)', 8),
                                   ('jls_buf_realloc', r'while \(alloc_size < size\)', 3)],
-                     timeout=800, backend=PORTFOLIO, mem_gb=20, objbits=10, desc=desc,
-                     bound='one user source, one FSR signal, three user-data items; string contents and payload sizes fixed, ids/fields/tags/bytes symbolic',
-                     assumes=['raw layer replaced by the chunk-store model rawstore.h (no checksums); wr_ts.c / wr_fsr.c not linked']))
+                     timeout=600, backend=PORTFOLIO, mem_gb=12, objbits=10, desc=desc, bound=bound,
+                     assumes=['raw layer replaced by the chunk-store model rawstore.h (no checksums; C04/C18 decide those); wr_ts.c / wr_fsr.c not linked; '
+                              'the list heads the reader takes from jls_core_scan_initial are handed over directly']))
     return o
